@@ -24,9 +24,11 @@ import (
 type sessStep struct {
 	Now     int    `json:"now"`
 	Hook    string `json:"hook"`
+	Store   string `json:"store"`
 	Verdict string `json:"verdict"`
 	Allowed bool   `json:"allowed"`
 	Rules   struct {
+		P   bool `json:"p"`
 		Pol bool `json:"pol"`
 		T   bool `json:"t"`
 		All bool `json:"all"`
@@ -222,6 +224,7 @@ func sessionRun(prop string, cases []json.RawMessage, rep *Report, unit time.Dur
 		mats = append(mats, &sessMat{c: c, raw: cases[idx], inv: inv, loader: loader})
 	}
 
+	emptyCbor, _ := container.NewWriter().ToCbor()
 	type outcome struct {
 		m       *sessMat
 		step    int
@@ -252,7 +255,17 @@ func sessionRun(prop string, cases []json.RawMessage, rep *Report, unit time.Dur
 		for _, m := range mats {
 			for m.next < len(m.c.Steps) && m.c.Steps[m.next].Now == k {
 				st := m.c.Steps[m.next]
-				err := callWithHook(m.inv, m.loader, st.Hook)
+				var ld delegation.Loader = m.loader
+				if st.Store == "none" {
+					// this call is given a loader that has lost the delegations (withdrawn / another store)
+					ld = mapLoader{}
+					if m.next%2 == 1 {
+						if empty, err := container.FromCbor(emptyCbor); err == nil {
+							ld = empty
+						}
+					}
+				}
+				err := callWithHook(m.inv, ld, st.Hook)
 				outs = append(outs, outcome{m, m.next, err == nil, stageOf(err)})
 				m.next++
 			}
@@ -270,6 +283,11 @@ func sessionRun(prop string, cases []json.RawMessage, rep *Report, unit time.Dur
 		var bad bool
 		var why string
 		switch prop {
+		case "C01":
+			if !st.Rules.P {
+				rep.nontrivial(string(o.m.raw) + strconv.Itoa(o.step))
+			}
+			bad, why = o.allowed && !st.Rules.P, "allowed although the loader of THIS call cannot load the delegations / the principal rules do not hold (the same token was checked before)"
 		case "C03":
 			if !st.Rules.Pol {
 				rep.nontrivial(string(o.m.raw) + strconv.Itoa(o.step))
@@ -305,7 +323,7 @@ func sessionRun(prop string, cases []json.RawMessage, rep *Report, unit time.Dur
 }
 
 func init() {
-	for _, p := range []string{"C03", "C04", "C05", "C20"} {
+	for _, p := range []string{"C01", "C03", "C04", "C05", "C20"} {
 		replays["session:"+p] = sessionReplay(p)
 	}
 }
@@ -449,12 +467,25 @@ func init() {
 				// the window is the token's own: its not-before time and its expiration as the accessors report them;
 				// the model's effective bounds (constructor normalisation, whole seconds on the wire) are compared as drift
 				enbf, eexp := wt.nbf, wt.exp
-				for _, pr := range [][2]any{{enbf, c.ENbf}, {eexp, c.EExp}} {
+				lost := false
+				for i, pr := range [][2]any{{enbf, c.ENbf}, {eexp, c.EExp}} {
 					have, _ := pr[0].(*time.Time)
 					want := pr[1].(int)
-					if (have == nil) != (want == -1) || (have != nil && !have.Equal(a.at(want))) {
+					name := []string{"not-before time", "expiration"}[i]
+					if (have == nil) != (want == -1) {
+						// "an absent bound being unbounded": a bound that was given bounds; one that was not given does not
+						what := "was given (" + a.at(want).UTC().Format(time.RFC3339Nano) + ") but the token reports none: it is valid at every later instant"
+						if have != nil {
+							what = "was not given but the token reports " + fmtT(have)
+						}
+						rep.violation(map[string]any{"case": json.RawMessage(raw), "anchors": a.name}, name+" as given", what, "the "+name+" "+what)
+						lost = true
+					} else if have != nil && !have.Equal(a.at(want)) {
 						rep.drift(json.RawMessage(raw), want, fmtT(have), "the bound carried by the token differs from the model's (constructor normalisation / wire resolution)")
 					}
+				}
+				if lost {
+					continue
 				}
 				probes := []time.Time{a.at(c.T)}
 				tick := time.Second / winQ
